@@ -30,7 +30,12 @@ Reset ==
 (* The sound window bound.  Lines arrive in hi order, so every admission seen *)
 (* so far has hi <= Cur.hi; those with lo >= x were all decided inside       *)
 (* [x, Cur.hi], whatever the order of the decisions, hence                   *)
-(*     #{k : lo_k >= x} <= B + (Cur.hi - x) \div T     for every x = lo_i.    *)
+(*     #{k : lo_k >= x} <= B + 1 + (Cur.hi - x) \div T   for every x = lo_i.  *)
+(* The "+ 1" is the known finding recorded for C19 (a peer whose state has   *)
+(* gone stale is admitted burst + 1 at once by governor's GCRA; see          *)
+(* KNOWN_FINDINGS.json and the rate-stale-probe): the timed runs report      *)
+(* anything beyond that; the exact quota (burst, no more) is checked on      *)
+(* fresh peers by the exhaustive replay and the first-contact bursts.        *)
 Admit ==
   /\ l <= Len(Rec) /\ Cur.ev = "admit" /\ l' = l + 1
   /\ LET s0 == IF Cur.key \in DOMAIN adm THEN adm[Cur.key] ELSE <<>>
@@ -38,7 +43,7 @@ Admit ==
      IN
      /\ \A i \in DOMAIN s :
            Cardinality({k \in DOMAIN s : s[k].lo >= s[i].lo})
-             <= cfgr.burst + ((Cur.hi - s[i].lo) \div cfgr.period)
+             <= cfgr.burst + 1 + ((Cur.hi - s[i].lo) \div cfgr.period)
      /\ adm' = With(adm, Cur.key, s)
   /\ UNCHANGED cfgr
 
